@@ -75,9 +75,23 @@ def _new_scratch() -> None:
     _SCRATCH_PID = os.getpid()
 
 
+_FRESH_SEQ: dict = {}
+
+
 def fresh_dir(name: str = "case") -> Path:
-    """Empty directory <scratch>/<name>; any previous content is removed."""
-    d = scratch_dir() / name
+    """A new empty directory <scratch>/<name>-<n>.  The previous one of that
+    name is removed, and no path is handed out twice within a process: state
+    that the code under test keys on a path (a cache) can then never be hit by
+    an unrelated earlier case.  Histories on one path are explored on purpose
+    by the checks that own them (C09, C15, C14's re-lint slice)."""
+    base = scratch_dir()
+    key = (os.getpid(), name)
+    n = _FRESH_SEQ.get(key, 0)
+    prev = base / f"{name}-{n}"
+    if prev.exists() or prev.is_symlink():
+        force_rmtree(prev)
+    _FRESH_SEQ[key] = n + 1
+    d = base / f"{name}-{n + 1}"
     if d.exists() or d.is_symlink():
         force_rmtree(d)
     d.mkdir(parents=True)
